@@ -974,6 +974,47 @@ def inventory(ctx):
         if counts:
             per_module[rel] = counts
     ctx.extra["opener_call_sites(static)"] = per_module
+    # ---- member reads: the modelled shape of read_zip_member, and no other way to a member's bytes
+    zu = trees.get("parsing/extractors/util/zip_utils.py")
+    rz = next((n for n in ast.walk(zu) if isinstance(n, ast.FunctionDef) and n.name == "read_zip_member"), None) if zu else None
+    shape_ok, shape_why = False, "read_zip_member not found"
+    if rz is not None:
+        body = [s_ for s_ in rz.body if not (isinstance(s_, ast.Expr) and isinstance(s_.value, ast.Constant))]
+        try:
+            a, w = body
+            info = a.targets[0].id
+            ok1 = isinstance(a.value, ast.Call) and a.value.func.attr == "getinfo"
+            item = w.items[0]
+            ok2 = isinstance(item.context_expr, ast.Call) and item.context_expr.func.attr == "open" and \
+                [ast.unparse(x) for x in item.context_expr.args] == [info] and not item.context_expr.keywords
+            member = item.optional_vars.id
+            ret = w.body[0]
+            ok3 = len(w.body) == 1 and isinstance(ret, ast.Return) and isinstance(ret.value, ast.Call) and \
+                ast.unparse(ret.value.func) == f"{member}.read" and [ast.unparse(x) for x in ret.value.args] == [f"{info}.file_size"] \
+                and not ret.value.keywords
+            shape_ok, shape_why = bool(ok1 and ok2 and ok3), f"getinfo={ok1} open(info)={ok2} member.read(info.file_size)={ok3}"
+        except Exception as e:  # noqa
+            shape_why = f"body has another shape: {type(e).__name__}"
+    ctx.obligation("X:read_zip_member is `info = zf.getinfo(path); with zf.open(info) as member: return member.read(info.file_size)`",
+                   shape_ok, shape_why)
+    zip_receivers = ("zf", "self._zip", "_zip", "self.zf", "archive", "z", "zip_file", "zipf")
+    raw_sites, stream_calls = [], []
+    for rel, tree in trees.items():
+        if rel.endswith("archive_extractor.py") or rel.endswith("sevenzip.py"):
+            continue
+        for fn_ in [n for n in ast.walk(tree) if isinstance(n, ast.FunctionDef)]:
+            for n in ast.walk(fn_):
+                if isinstance(n, ast.Call) and isinstance(n.func, ast.Attribute):
+                    recv = ast.unparse(n.func.value)
+                    if n.func.attr in ("read", "open", "extract", "extractall") and recv in zip_receivers:
+                        if not ((rel.endswith("zip_utils.py") and fn_.name == "read_zip_member")
+                                or (rel.endswith("zip_context.py") and fn_.name == "open_stream")):
+                            raw_sites.append(f"{rel}:{n.lineno} {recv}.{n.func.attr}(")
+                    if n.func.attr in ("open_stream", "open_file") and not (fn_.name == "open_file" and n.func.attr == "open_stream"):
+                        stream_calls.append(f"{rel}:{n.lineno} .{n.func.attr}(")
+    ctx.obligation("inventory:a ZIP member's bytes are obtained only through read_zip_member (no zf.read/zf.open/extract elsewhere; the raw-stream "
+                   "accessors ZipContext.open_stream / open_file have no call site)", not raw_sites and not stream_calls,
+                   f"raw reads: {raw_sites}; raw stream calls: {stream_calls}")
     modules_with_opens = [m for m in per_module if m.endswith("_extractor.py")]
     ctx.obligation("inventory:opener call sites per container extractor counted; each is a validating opener (ZipContext class / "
                    "open_zipfile / validate_zip_bytesio / is_odf_encrypted) or a guarded load_workbook",
@@ -1394,7 +1435,8 @@ def run(ctx):
         "C11_rejects_iff", "C11_accepts_iff", "C11_never_overflows", "C11_ratio_exact", "C11_float_gt_sound", "C11_reject_sound_all_limits", "C11_dirs_ignored",
         "C11_count_counts_dirs", "C11_position_preserved", "C11_validate_dominates_reads",
         "C11_read_implies_accepted", "C11_trace_ok_sound", "C11_attrs_irrelevant", "C11_file_member_never_ignored", "C11_names_irrelevant", "C11_session_history_independent", "C11_odf_encrypted_only_if_validated",
-        "C11_odf_probe_validate_dominates_read", "C11_accept_bounds", "C11_accepted_output_bounded", "C11_rejects_iff_unrestricted_refuted",
+        "C11_odf_probe_validate_dominates_read", "C11_accept_bounds", "C11_accepted_output_bounded", "C11_read_zip_member_bounded",
+        "C11_read_zip_member_work_bounded", "C11_repository_reads_bounded", "C11_zipfile_read_work_unbounded_refuted", "C11_rejects_iff_unrestricted_refuted",
         "C11_overflow_unrestricted_refuted"])
     ctx.prove("C11/Inst.v", ["Gen/C11Limits.vo", "C11/Corr.vo", "C11/Proofs.vo"], expected=[
         "C11_default_limits_exact", "C11_default_guard_exact"])
@@ -1745,6 +1787,42 @@ def run(ctx):
                        (f"{len(fp_)} disagreements, first: {pinfo[fp_[0]] if fp_ else ''} " + logp)[:1000])
         ctx.traces += len(pcases)
         lap("zipcontext")
+        # (d'') read_zip_member against its model: claimed size x real size, stored and deflated
+        from sharepoint2text.parsing.extractors.util import zip_utils
+        mcases, minfo = [], []
+        for deflate in (True, False):
+            for R in (0, 1, 3000, 5000, 100_000):
+                payload = (b"sharepoint " * (R // 11 + 1))[:R]
+                z0 = make_zip([("pad.txt", b"x"), ("m.bin", payload)], deflate=deflate)
+                for fs in sorted({0, 1, max(R - 1, 0), R, R + 1, 2 * R, R // 2, 4096, 4097, R + 70_000}):
+                    zdata = forge(z0, {1: (fs, struct.unpack("<I", z0[central_records(z0)[0][1][0] + 20:][:4])[0])})
+                    mon.record()
+                    try:
+                        with _ORIG["init_cls"](io.BytesIO(zdata)) as zf_:
+                            got = len(zip_utils.read_zip_member(zf_, "m.bin"))
+                    except zipfile.BadZipFile:
+                        got = -1
+                    except Exception as e:  # noqa
+                        got = -2
+                        ctx.finding(f"read_zip_member-raises:{type(e).__name__}", f"read_zip_member raised {type(e).__name__} "
+                                    f"(claimed {fs}, real {R}, deflate={deflate})", {"container": zdata})
+                    mon.stop()
+                    infl = max([r_[4] or 0 for r_ in mon.reads] + [0])
+                    ctx.case(("read_zip_member", deflate, R, fs), True, kind="read_zip_member")
+                    if got > fs:
+                        ctx.finding("read_zip_member-exceeds-claim", f"read_zip_member returned {got} bytes for a member claiming {fs} "
+                                    f"(real size {R}, deflate={deflate})", {"container": zdata, "claimed": fs, "got": got})
+                    if infl > max(fs, 4096) + 4096:
+                        ctx.finding("read_zip_member-inflates-beyond-claim", f"read_zip_member made the decompressor produce {infl} bytes "
+                                    f"for a member claiming {fs} (real size {R})", {"container": zdata, "claimed": fs, "inflated": infl})
+                    mcases.append(f"({fs}, {R}, {zc(got)}, {infl})")
+                    minfo.append((deflate, R, fs, got, infl))
+        okm, fm, logm = coq_eval_shards(ctx, "readmember", pre + "From S2T Require Import C11.ModelRead.\n", "corr_read_member", mcases,
+                                        shard=400, ty="Z * Z * Z * Z")
+        ctx.obligation("correspondence:model read_zip_member (bytes obtained, CRC failure, decompressor bound) == zip_utils.read_zip_member "
+                       "on claimed x real sizes, stored and deflated", okm and not fm,
+                       (f"{len(fm)} disagreements, first (deflate, real, claimed, got, inflated): {minfo[fm[0]] if fm else ''} " + logm)[:1000])
+        ctx.traces += len(mcases)
         # (e) the extractors on fixtures and forged variants
         seen_fmt = set()
         opens_stat, plain_out, truncation_broken, n_reads = {}, {}, [], [0]
